@@ -54,6 +54,7 @@ type World struct {
 	inlMemo      map[*ssa.Function]bool
 	prrMemo      map[[2]interface{}]bool
 	sentinelMemo map[*ssa.Global]bool
+	allocOrd     map[*ssa.Alloc]int
 	files        map[string][]byte
 	all          map[*ssa.Function]bool
 	overlay      map[string][]byte
